@@ -95,6 +95,87 @@ TABLE = {
               "a nested ignore rule (cisco `! no ip address` under interface) and a caller reusing its trees afterwards"),
     "C20-2": ("lib.merge_dicts: list concatenation with `+=` (extends the first input's list in place)",
               "one row matching two overlapping cached ACL/rulebook rules with a same-named child rule, then a second device in the same process"),
+    # ---- round 2 (second set of fresh sub-agents, told only which two ideas per property were already taken)
+    "C01-3": ("base_diff marks out-of-place rows AFFECTED + mark_unchanged recurses into every row (two cooperating sites)",
+              "a moved %ordered block whose body lines are in a different order in old and new; arises by itself on the second step of a chain"),
+    "C01-4": ("patching._find_rules_matches breaks after the first matching rule",
+              "a block header matching two same-level local rules (specific + generic) and a change to a line only the later rule's children describe"),
+    "C02-3": ("patching._find_acl_matches skips the reverse regexp of a rule that already matched the row directly",
+              "a wildcard rule marked %cant_delete in every generator, a generator emitting the explicit negation of a line present on the device"),
+    "C02-4": ("generators/result._combine_acl_text dedents the joined text once instead of each generator's text",
+              ">= 2 generators whose ACL literals have different left margins, the deeper one later, the earlier ACL ending inside a block rule"),
+    "C03-3": ("common.rewrite_diff calls base_diff with moved_to_affected=True",
+              "a %rewrite group with the same lines at every depth, >= 2 of them in a different order, nothing added or removed"),
+    "C03-4": ("common.base_diff skips a REMOVED row whose parent row is MOVED",
+              "an %ordered rule whose rows have children, such a row reported MOVED, and a nested deletion under it in the same run"),
+    "C04-3": ("RosFormatter.blocks_and_context: context.current holds the bare row, section path rebuilt from the parent chain; one reader missed",
+              "routeros, a section at depth >= 2 with a subsection AND own leaf rows after it"),
+    "C04-4": ("RosFormatter.blocks_and_context renders the body of a group of equal neighbouring sections once and replays it",
+              "routeros, >= 2 adjacent sibling sections with identical children that contain a further subsection"),
+    "C05-3": ("tabparser.parse_to_tree fast path for a line at the same depth as the previous one inserts an empty block unconditionally",
+              "a repeated block header whose first occurrence has children, directly after a leaf at the same depth"),
+    "C05-4": ("tabparser._filtered_lines: the Huawei section break test uses the stripped line",
+              "an indented `#` comment inside a nested block followed by more lines of that block"),
+    "C06-3": ("patching._find_acl_matches: sort ascending then reversed() instead of a stable descending sort",
+              "two rules matching a row with exactly equal (prio, shared symbols), one local with children and one %global (or direct vs reverse)"),
+    "C06-4": ("patching.apply_acl: all(cant_delete) -> any(cant_delete)",
+              "the same ACL row declared twice with different cant_delete flags (merged lists [1,0]) and a reverse-form line in the tree"),
+    "C07-3": ("syntax.compile_row_regexp: lru_cache replaced by a dict keyed by the row only (flags ignored)",
+              "the same row text compiled twice in one process with different flags (%ignore_case in patching vs ACL/ordering), then a line differing in case"),
+    "C07-4": ("syntax._parse_raw_rule no longer collapses runs of blanks/tabs inside the rule row",
+              "a rule row with interior runs of blanks or tabs and use of its reverse form (removal command, negated ACL/ordering form)"),
+    "C08-3": ("rbparser/ordering._compile_ordering: 'already negated' test is startswith(prefix) without the blank",
+              "an ordering rule whose first word merely begins with the negation word (node, notification) and a removal of that command among others"),
+    "C08-4": ("Orderer.get_order returns no children rules for a row no rule matches",
+              ">= 2 %global ordering rules that do not match every row and an unmatched block header holding commands of both"),
+    "C09-3": ("deploy.apply_deploy_rulebook memoises the matched deploy rule by the command text",
+              "a deploy rulebook whose rule depends on the block, and the same command text under two block paths in one patch"),
+    "C09-4": ("deploy.apply_deploy_rulebook sorts cmds_with_apply before itertools.groupby",
+              "commands of one patch selecting different session wrappers, interleaved (aruba ap-env vs conf-t)"),
+    "C10-3": ("TreeGenerator.block_if default condition all(tokens)",
+              "block_if() with the default condition and a printable but falsy token (0, 0.0, False)"),
+    "C10-4": ("lib.merge_dicts de-duplicates list values instead of concatenating them",
+              "two generators owning the same child rule under textually different parent rules matching one row, equal cant_delete flags"),
+    "C11-3": ("cisco/vlandb._process_vlandb: `new -= new_blocks` hoisted before removed/added are computed",
+              "hw.Catalyst hardware (2960, WS-C3750), a VLAN moving from a `vlan <list>` line to a `vlan N` block"),
+    "C11-4": ("api._diff_and_patch strips unchanged rows before make_pre",
+              "huawei multi_all list over >= 2 lines, one whole line removed, one unchanged, through _diff_and_patch"),
+    "C12-3": ("parallel.irun: `all_reaped = not pool` sampled after reaping instead of before the get",
+              "the last workers put and exit between the parent's poll timeout and its reaping"),
+    "C12-4": ("parallel._pool_worker skips the picklability probe for builtin containers",
+              "a task returning a list/tuple/dict holding an unpicklable object, in a real multi-process pool"),
+    "C13-3": ("jsontools._resolve_json_pointers: exact-key fast path",
+              "a key containing glob characters equal to the pattern part, beside other keys the glob matches"),
+    "C13-4": ("jsontools.make_patch rewrites `move` as remove + add with the value read from old",
+              "an array that gains/loses an element and has a later element change position in the same diff"),
+    "C14-3": ("rpl entities: new get_prefix_name() decides 'override present' by `ge is None and le is None`",
+              "an or_longer bound equal to 0: the policy refers to a list name the prefix-list generator does not define"),
+    "C14-4": ("rpl community.acl_huawei: `ip extcommunity-list` narrowed to `ip extcommunity-list soo basic`",
+              "huawei, CommunityType.SOO with use_regex=True, run with use_acl=True"),
+    "C15-3": ("mesh executor._execute_indirect: `session = MeshSession()` hoisted out of the rule loop",
+              ">= 2 indirect matches for one device with handlers setting different session fields, the richer one first"),
+    "C15-4": ("mesh executor._apply_direct_interface_changes: sub-interface step guarded by `if changes.subif:`",
+              "a direct rule selecting sub-interface 0 on a port or a LAG"),
+    "C16-3": ("api._read_old_new_diff_patch calls patch_from_pre(do_commit=False)",
+              "a row under the shipped %force_commit rule (huawei `bgp` undo_commit): top-level bgp block removed or re-numbered"),
+    "C16-4": ("api._read_device_config returns vendor.hardware instead of the hw it was given",
+              "a model-specific --hw (Huawei CE6870 / NE40E, Catalyst 2960), a pair touching a model-dependent rule, the real file reader"),
+    "C17-3": ("implicit.config: matched_lines list comprehension -> generator expression (any() consumes the first match)",
+              "a non-`!` rule that is a default row with default children (Huawei NE aaa) and that block explicit in the config"),
+    "C17-4": ("gen._old_new_per_device completes safe_new with implicit.config(new)",
+              "--acl-safe, an unsafe generator creating a block matching an implicit `!interface` rule, another generator's acl_safe covering it"),
+    "C18-3": ("netdev/db._build_tree single pass with an index keyed by the parent's compiled regex",
+              "a Mellanox/NVIDIA SN model (two nodes share the regex ' SN'): NVIDIA SN2100 gets a Mellanox leaf true without its parents"),
+    "C18-4": ("vendors/registry: match() uses a table built on the first lookup and never reset by register()",
+              "a vendor registered after the first match() (a lookup between registrations)"),
+    "C19-3": ("Entire.__init__: `self.prio = getattr(self, 'prio', None) or 100`",
+              ">= 2 Entire generators on one path, one declaring prio = 0 and the other in 1..100"),
+    "C19-4": ("UnifiedFileDiffer._diff_text_file right-strips every line before difflib",
+              "old and new equal after per-line rstrip but not equal as texts (trailing blanks/tabs, blank-only line)"),
+    "C20-3": ("api.patch_from_pre temporarily assigns the RefTracker ordering to rb['ordering'] and restores it without finally",
+              "a device with a non-empty RefTracker whose make_patch raises, then a later device of the same model in the same process"),
+    "C20-4": ("patching._find_acl_matches memoises the rule's alphabet in the shared compiled ACL without distinguishing direct/reverse pattern",
+              "an earlier device making a rule match through its reverse pattern first, then a row where two rules are within a symbol in specificity"),
 }
 
 
@@ -107,7 +188,8 @@ def main() -> int:
             continue
         prop = sid.split("-")[0]
         meta = {"id": sid, "property": prop, "change": what, "needs_to_manifest": needs,
-                "origin": "fresh sub-agent given only the property record and a scratch worktree of /repo",
+                "origin": "fresh sub-agent given only the property record and a scratch worktree of /repo"
+                          + (" (round 2: also told which two ideas were already taken)" if sid[-1] in "34" else ""),
                 "files": sorted(p.name for p in d.iterdir() if p.name != "meta.json"),
                 "ran": [f"python3 harness/drill.py {prop} seeded/{sid}  (scratch worktree of /repo + scratch copy of /verif; "
                         "repo test suite with the change, demo.py with and without the change, "
